@@ -70,6 +70,8 @@ def gen_tree(rng: Any, *, max_depth: int = 4, max_fanout: int = 4, max_nodes: in
                 calias = f"c{i}"
                 if rng.random() < p_remap:
                     calias = f"c{i}/{rng.choice(['x', 'y'])}"
+                elif depth == 0 and rng.random() < 0.06:
+                    calias = f".c{i}"  # an alias that starts with the path separator (directly below the root the path stays unambiguous)
                 cpath = f"{path}.{calias}" if path else calias
                 node["children"].append(cpath)
                 make(cpath, calias, depth + 1)
